@@ -90,10 +90,9 @@ impl Http2FingerprintExtractor {
             match self.parser.parse_frames_with_offset(frame_data) {
                 Ok((frames, bytes_consumed)) => {
                     if !frames.is_empty() {
-                        // Update parsed_offset based on actual bytes consumed
-                        self.parsed_offset = start_offset.saturating_add(bytes_consumed);
-
                         if let Some(fingerprint) = extract_akamai_fingerprint(&frames) {
+                            // Update parsed_offset based on actual bytes consumed
+                            self.parsed_offset = start_offset.saturating_add(bytes_consumed);
                             self.fingerprint = Some(fingerprint.clone());
                             return Ok(Some(fingerprint));
                         }
